@@ -44,7 +44,7 @@ STD = ['std Vec/VecDeque/BinaryHeap/HashSet/HashMap behave as documented', 'payl
 PROPS['C01'] = dict(
     rules=[_r('P1', re_.p1_connect, DIRECTED), _r('P2', re_.p2_disconnect_directed, DIRECTED), _r('P3', re_.p3_isolate, DIRECTED),
            _r('RM1', re_.rm1_first_match, DIRECTED), _r('SYM', re_.sym, DIRECTED), _r('ENC', re_.enc, DIRECTED), _r('OBS', re_.obs, DIRECTED),
-           _r('IT2', rg.it2, DIRECTED), _r('ORIENT', re_.orient, DIRECTED), _r('ADJ-PRIM', re_.adj_prim, DIRECTED)],
+           _r('IT2', rg.it2, DIRECTED), _r('ORIENT', re_.orient, DIRECTED), _r('ADJ-PRIM', re_.adj_prim, DIRECTED), _r('T1', re_.t1_try_connect, DIRECTED)],
     explanation='Induction premises for the mirror invariant of the directed flavours: the invariant holds for Adjacent::new (two empty Vecs, ENC-new), is preserved by each of the '
                 'three mutators (P1 connect pushes the pair, P2 disconnect removes the pair keyed by each other, P3 isolate removes every mirror entry then clears), removals are '
                 'first-match forward scans on both sides (RM1, SYM), nothing else writes the lists (ENC a-d), and every observer reads the list its name says (OBS, IT2/ORIENT).',
@@ -55,7 +55,7 @@ PROPS['C01'] = dict(
 PROPS['C02'] = dict(
     rules=[_r('P1', re_.p1_connect, UNDIRECTED), _r('P2u', re_.p2_disconnect_undirected, UNDIRECTED), _r('P3', re_.p3_isolate, UNDIRECTED),
            _r('RM1', re_.rm1_first_match, UNDIRECTED), _r('SYM', re_.sym, UNDIRECTED), _r('ENC', re_.enc, UNDIRECTED), _r('OBS', re_.obs, UNDIRECTED),
-           _r('GET-ADJ', re_.get_adj, UNDIRECTED), _r('IT2', rg.it2, UNDIRECTED), _r('ORIENT', re_.orient, UNDIRECTED), _r('ADJ-PRIM', re_.adj_prim, UNDIRECTED)],
+           _r('GET-ADJ', re_.get_adj, UNDIRECTED), _r('IT2', rg.it2, UNDIRECTED), _r('ORIENT', re_.orient, UNDIRECTED), _r('ADJ-PRIM', re_.adj_prim, UNDIRECTED), _r('T1', re_.t1_try_connect, UNDIRECTED)],
     explanation='Same scheme for the undirected flavours: every edge is two half-edges (owner OUT list, partner IN list); connect pushes both halves, disconnect removes one half at '
                 'the caller and the complementary half at the peer (P2u), isolate removes the partner half at every neighbour (P3), the adjacency view is OUT ++ IN with the exact '
                 'index arithmetic (GET-ADJ), degree adds both lengths once (OBS).',
